@@ -21,7 +21,7 @@
     hence along histories of such steps, restore_delaunay and add_point included.  Orientation: children stay positive.
     In THIS file [flip_shared] / [split_edge_ok] are hypotheses of the single-step theorems; Properties/C08_links.v proves that they
     follow from the link-geometry invariant [GEO], which the steps preserve, and states restore_delaunay and the histories without
-    any invariant hypothesis.  [refine] is not covered by the history theorems; the model's own location test
+    any invariant hypothesis; [refine] and mesh_polygon: Properties/C08_refine.v (through the trace of elementary steps).  The model's own location test
     ([tri_test_point], tolerance 100 eps) does NOT imply the exact on-edge hypothesis ([C08_located_on_edge_is_not_exact]). *)
 From Coq Require Import ZArith Reals List Permutation Floats Lra.
 Set Warnings "-inexact-float".
